@@ -265,7 +265,7 @@ def check(ctx):
         "backup copy must be the first event that can change anything and be taken exactly when make_backup holds and the database is a file; "
         "delete's statements and their bound values per element; the live counter object, dbfn, dialect and the built iterator reach the "
         "importer; populate -> relations -> finalize; an empty source returns before any write; counters are written back with INSERT OR "
-        "REPLACE and reloaded on open (parsed SQL + provenance). R5 re-uses C02.R2's conjunctive-query comparison of the level-2 closure. "
+        "REPLACE and reloaded on open (parsed SQL + provenance). R5 re-uses C02's importer scenarios (relations after a first and a second import into the same model database). "
         "Does not decide equality with a reference model over histories.")
     eff = Effects(ctx)
     sch = schema(ctx)
@@ -274,7 +274,7 @@ def check(ctx):
     r3_r4(ctx, eff)
     from . import c02
     n0 = len(ctx.obs)
-    c02.r2(ctx, sch)
+    c02.r_scenario(ctx)
     for o in ctx.obs[n0:]:
         o.rule = "C10.R5"
     r6(ctx, sch)
